@@ -464,6 +464,12 @@ def mergeHLoop : List FieldSpec → Heap → RConfig → RConfig → RConfig →
 /-- `MergeConfig(a, b)` on a heap. -/
 def mergeH (t : List FieldSpec) (h : Heap) (a b : RConfig) : Heap × RConfig := mergeHLoop t h a b []
 
+/-- a chain of merges on the heap (what `ReadConfigPaths` does with the decoded files): the
+accumulator of each step is the RESULT of the previous one, living in the heap it returned -/
+def foldH (t : List FieldSpec) : Heap → RConfig → List RConfig → Heap × RConfig
+  | h, acc, [] => (h, acc)
+  | h, acc, c :: cs => foldH t (mergeH t h acc c).1 (mergeH t h acc c).2 cs
+
 /-- What a reference-level field denotes. -/
 def derefVal (h : Heap) : Kind → RVal → FieldVal
   | .tags, .ref none => .tags none
